@@ -2,23 +2,23 @@ from vlib.core import Check, Family
 from vlib.c05 import facts_step, race_step
 
 # every catalogued model whose kernel model exists in OW/Kernels (kept in step with OW/Kernels/Registry.lean)
-from checks.models import ALL_MODELS
+from checks.models import ALL_MODELS, TOL_BY_MODEL, EXTRA_ARGS
 
 # Models whose WRAPPER-LEVEL correspondence (family W: Lean wrapper + kernel model vs real vectorised Run) currently disagrees
 # for reasons that have nothing to do with scheduling: the same cases disagree identically in C04 and at every GOMAXPROCS
 # (InstreamFineSediment: NaN / bank-erosion branch; Storage: per-set table lengths). They stay covered here by family WP
 # (real code at GOMAXPROCS 1/2/4/16 vs itself and vs single-cell runs, no kernel model needed) and by the race tier.
 # Remove an entry as soon as C04 is green for it.
-W_MODEL_MISMATCH = ["InstreamFineSediment", "Storage"]
+W_MODEL_MISMATCH = []   # C04 is green for all 41 models
 W_MODELS = [m for m in ALL_MODELS if m not in W_MODEL_MISMATCH]
 
-_W = ["models=" + ",".join(W_MODELS), "n=12"]
+_W = ["models=" + ",".join(W_MODELS), "n=12"] + EXTRA_ARGS
 
 
 def _w(p):
     # same family name and seed => the same cases at every GOMAXPROCS; each run is compared with the (sequential) Lean model,
     # so all four are bit-identical to the model and hence to each other
-    return Family("W", rtol=1e-9, atol_scale=1e-12, args=_W + ["gomaxprocs=%d" % p], label="W-p%d" % p)
+    return Family("W", rtol=1e-9, atol_scale=1e-12, tol_by_model=TOL_BY_MODEL, args=_W + ["gomaxprocs=%d" % p], label="W-p%d" % p)
 
 
 # Note: a Go panic in any cell's goroutine kills the process, so a panicking run has no result. When SEVERAL cells of one case
